@@ -44,6 +44,9 @@ func c15Configs() []*cfg.Config {
 		// todo takes any number of arguments; the first one is the message
 		{Meta: meta(), Params: []cfg.KV{{K: "p0", V: S(`%todo("set p0 first", "then p1", "docs: OverrideParam")%`)}, {K: "p1", V: S(`%p0% / %todo("", "not the message")%`)}},
 			Services: []cfg.Service{{Name: "s0", Constructor: cfg.P("pa.New"), Args: []cfg.Val{S("%p0%")}}, {Name: "s1", Constructor: cfg.P("pa.New"), Args: []cfg.Val{S("@s0"), S("%p1%")}}}},
+		// the message is text, not a format: percent signs (written as Go escapes, a raw one would end the token) come out as they are
+		{Meta: meta(), Params: []cfg.KV{{K: "p0", V: S(`%todo("50\x25 done, 100\u0025d left")%`)}, {K: "p1", V: S(`%p0% %todo("\045s \x25v \x25!")%`)}},
+			Services: []cfg.Service{{Name: "s0", Constructor: cfg.P("pa.New"), Args: []cfg.Val{S("%p0%")}}, {Name: "s1", Constructor: cfg.P("pa.New"), Args: []cfg.Val{S("@s0"), S("%p1%")}}}},
 		{Meta: meta(), Params: []cfg.KV{{K: "p0", V: S("%todo()%")}, {K: "p1", V: cfg.Int(1)}},
 			Services: []cfg.Service{{Name: "s0", Constructor: cfg.P("pa.New"), Args: []cfg.Val{S("%p0%")}, Scope: cfg.P("contextual")}, {Name: "s1", Constructor: cfg.P("pa.New"), Args: []cfg.Val{S("@s0"), S("%p1%")},
 				Fields: []cfg.KV{{K: "F1", V: S("%p0%")}}}}},
